@@ -39,6 +39,7 @@ def sample_columns():
         'cdate': (datetime.date, [datetime.date(2020, 2, 29), datetime.date(1999, 12, 31), None, datetime.date(2020, 1, 1)]),
         'cb': (bool, [True, False, None, True]),
         'co': (object, [5, 'x', None, D('1.5')]),
+        'co2': (object, [A(D('12.5'), 'USD'), (1, 2), ['a'], None]),      # untyped cells holding structured values (amount-valued metadata)
         'cset': (set, [{'a', 'b'}, set(), None, {'Assets:Cash'}]),
         'clist': (list, [['a'], [], None, ['b', 'c']]),
         'cdict': (dict, [{'k': 'v'}, {}, None, {'k': 1}]),
@@ -171,6 +172,14 @@ def registry_leg(ctx):
                     if not any(t is types.Any for t in intypes):
                         events.append({'what': what + ':rejected', 'declared': '?', 'mro': [], 'exc': 'TypeError', 'phase': 'compile',
                                        'msg': 'registered overload rejected by the compiler'})
+    # implicit casts: an untyped operand next to a typed one, under every binary operator, both ways round
+    for node in (ast.Add, ast.Sub, ast.Mul, ast.Div, ast.Mod, ast.Equal, ast.NotEqual, ast.Less, ast.LessEq, ast.Greater, ast.GreaterEq):
+        for oc in ('co', 'co2'):
+            for tc in ('ci', 'cd', 'cs', 'cdate', 'cb'):
+                for e in (node(ast.Column(oc), ast.Column(tc)), node(ast.Column(tc), ast.Column(oc))):
+                    what = 'op:%s[untyped:%s,%s]' % (node.__name__, oc, tc)
+                    run_event(conn, selectq.bql.select_ast([(e, 'r')], 'types'), what, events, ctx, fmt=False)
+                    ctx.case(what + str(isinstance(e.left, ast.Column) and e.left.name), True)
     # functions (scalar and aggregate)
     strargs = ['cs', "year", "USD", "a", "Assets", "1 day", "%Y-%m-%d", "k", ":"]
     for name, impls in sorted(qc.FUNCTIONS.items()):
@@ -235,12 +244,16 @@ def registry_leg(ctx):
                                ('groupby', lambda: selectq.bql.select_ast([(ast.Column(cn), 'r'), (ast.Function('count', [ast.Asterisk()]), 'n')], tn,
                                                                           group_by=ast.GroupBy([1], None), limit=200)),
                                ('implicit-groupby', lambda: selectq.bql.select_ast([(ast.Column(cn), 'r'), (ast.Function('count', [ast.Asterisk()]), 'n')], tn, limit=200)),
+                               ('groupby-twice', lambda: selectq.bql.select_ast([(ast.Column(cn), 'r'), (ast.Column(mate), 'm'), (ast.Function('count', [ast.Asterisk()]), 'n')], tn,
+                                                                                group_by=ast.GroupBy([ast.Column('r'), 1, ast.Column('m')], None), limit=200)),
                                ('groupby-hidden', lambda: selectq.bql.select_ast([(ast.Function('count', [ast.Asterisk()]), 'n')], tn,
                                                                                  group_by=ast.GroupBy([ast.Column(cn)], None), limit=200)),
                                ('min', lambda: selectq.bql.select_ast([(ast.Function('min', [ast.Column(cn)]), 'r')], tn)),
                                ('max', lambda: selectq.bql.select_ast([(ast.Function('max', [ast.Column(cn)]), 'r')], tn)),
                                ('first', lambda: selectq.bql.select_ast([(ast.Function('first', [ast.Column(cn)]), 'r')], tn)),
                                ('count', lambda: selectq.bql.select_ast([(ast.Function('count', [ast.Column(cn)]), 'r')], tn))):
+                if cn == 'co2':
+                    continue          # mixed structured values in an untyped column: for the operator / function walks only
                 if tn in ('postings', 'entries') and cn not in ('account', 'date', 'meta', 'position', 'balance', 'other_accounts', 'tags', 'weight', 'price', 'number', 'flag'):
                     continue
                 w3 = 'clause:%s:%s' % (clause, tname(col.dtype))
@@ -330,7 +343,10 @@ def run(ctx):
     path = ctx.path('types.ndjson')
     with open(path, 'w') as f:
         for ev in events:
-            f.write(json.dumps({k: ev[k] for k in ('id', 'what', 'declared', 'mro', 'exc', 'phase')}) + '\n')
+            # operators have no value-dependent failures (their arithmetic errors are NULL): whatever escapes from an operator over
+            # conforming columns comes from the implicit casts, i.e. from the runtime type of a value
+            ev['implicit'] = 1 if ev['what'].startswith('op:') and ev['phase'] == 'run' else 0
+            f.write(json.dumps({k: ev[k] for k in ('id', 'what', 'declared', 'mro', 'exc', 'phase', 'implicit')}) + '\n')
     ctx.sample({'leg': 'C2S', 'events': events[:3]})
     res = ctx.tlc('Trace_Types', 'Trace_Types.cfg', leg='C2S', workers=1, env={'TRACE_FILE': path})
     if res.violated:
